@@ -159,15 +159,12 @@ func genHashOps() string {
 	}
 
 	vi := fd("Hash", "valueIndex")
-	viShape := shape(bodyIs(vi,
-		"if hv.index == nil { result := make(map[px.HashKey]int, len(hv.entries)); for idx, entry := range hv.entries { result[px.ToKey(entry.key)] = idx }; hv.index = result }",
-		"return hv.index"), ".lazyLastWins", vi)
-	// printer output of the if statement keeps line breaks as spaces after normalisation; compare statement-wise instead
+	viShape := shape(false, "", vi)
 	if len(vi.Body.List) == 2 {
 		if is, ok := vi.Body.List[0].(*ast.IfStmt); ok && is.Init == nil && is.Else == nil && src(is.Cond) == "hv.index == nil" &&
 			sameSrc(is.Body.List,
 				"result := make(map[px.HashKey]int, len(hv.entries))",
-				"for idx, entry := range hv.entries { result[px.ToKey(entry.key)] = idx }",
+				"for $i, $e := range hv.entries { result[px.ToKey($e.key)] = $i }",
 				"hv.index = result") && src(vi.Body.List[1]) == "return hv.index" {
 			viShape = ".lazyLastWins"
 		}
@@ -185,10 +182,11 @@ func genHashOps() string {
 	for i, s := range l {
 		if rs, ok := s.(*ast.RangeStmt); ok && src(rs.X) == "others" {
 			mergeLoop = ".unknown " + leanStr(src(rs))
-			if rs.Value != nil && src(rs.Value) == "entry" && i == len(l)-2 && src(l[len(l)-1]) == "return all" {
-				if sameSrc(rs.Body.List, "if idx, ok := index[px.ToKey(entry.key)]; ok { all[idx] = entry } else { all = append(all, entry) }") {
+			if i == len(l)-2 && src(l[len(l)-1]) == "return all" {
+				switch canon(rs) {
+				case "for $i, $e := range others { if idx, ok := index[px.ToKey($e.key)]; ok { all[idx] = $e } else { all = append(all, $e) } }":
 					mergeLoop = ".replaceOrAppend"
-				} else if sameSrc(rs.Body.List, "all = append(all, entry)") {
+				case "for $i, $e := range others { all = append(all, $e) }":
 					mergeLoop = ".alwaysAppend"
 				}
 			}
@@ -217,7 +215,7 @@ func genHashOps() string {
 		src(dl[2]) == "keys.Each(func(key px.Value) { if idx, ok := valueIndex[px.ToKey(key)]; ok { deleted[idx] = true } })" &&
 		src(dl[3]) == "if len(deleted) == 0 { return hv }" &&
 		src(dl[4]) == "entries := make([]*HashEntry, 0, len(hv.entries)-len(deleted))" &&
-		src(dl[5]) == "for idx, entry := range hv.entries { if !deleted[idx] { entries = append(entries, entry) } }" &&
+		canon(dl[5]) == "for $i, $e := range hv.entries { if !deleted[$i] { entries = append(entries, $e) } }" &&
 		src(dl[6]) == "return WrapHash(entries)" {
 		daShape = ".markThenFilter"
 	}
@@ -243,13 +241,13 @@ func genHashOps() string {
 	incOK := bodyIs(fd("Hash", "IncludesKey"), "_, ok := hv.valueIndex()[px.ToKey(o)]", "return ok") &&
 		bodyIs(fd("Hash", "IncludesKey2"), "_, ok := hv.valueIndex()[px.HashKey(key)]", "return ok")
 	viewsOK := bodyIs(fd("Hash", "Keys"), "keys := make([]px.Value, len(hv.entries))",
-		"for idx, entry := range hv.entries { keys[idx] = entry.key }", "return WrapValues(keys)") &&
+		"for $i, $e := range hv.entries { keys[$i] = $e.key }", "return WrapValues(keys)") &&
 		bodyIs(fd("Hash", "Values"), "values := make([]px.Value, len(hv.entries))",
-			"for idx, entry := range hv.entries { values[idx] = entry.value }", "return WrapValues(values)") &&
+			"for $i, $e := range hv.entries { values[$i] = $e.value }", "return WrapValues(values)") &&
 		bodyIs(fd("Hash", "Len"), "return len(hv.entries)") &&
 		bodyIs(fd("Hash", "At"), "if i >= 0 && i < len(hv.entries) { return hv.entries[i] }", "return undef") &&
-		bodyIs(fd("Hash", "Each"), "for _, e := range hv.entries { consumer(e) }") &&
-		bodyIs(fd("Hash", "EachPair"), "for _, e := range hv.entries { consumer(e.key, e.value) }")
+		bodyIs(fd("Hash", "Each"), "for $i, $e := range hv.entries { consumer($e) }") &&
+		bodyIs(fd("Hash", "EachPair"), "for $i, $e := range hv.entries { consumer($e.key, $e.value) }")
 	mergeOK := bodyIs(fd("Hash", "Merge"), "return WrapHash(hv.mergeEntries(o))")
 	wrapOK := bodyIs(fd("", "WrapHash"), "return &Hash{entries: entries}")
 	buildOK := bodyIs(fd("", "BuildHash"), "h := &Hash{entries: make([]*HashEntry, 0, len)}", "h.entries = bld(h, h.entries)", "return h")
